@@ -9,59 +9,59 @@ HERE = os.path.dirname(os.path.dirname(os.path.abspath(__file__)))
 PY = "/venv/bin/python"
 
 CLAIMS = {
-    "C02": ("registry model (symbolic evaluation of class statements) + emitter exhaustiveness over resolved emission sites + CFG reachability",
-            "partial: every enforced (emitter, code) pair of the frozen table has a live, reachable emission site in a check the registry will run, and the dispatcher reaches dependants; NOT decided: that the emitting condition fires for every program/site (run-time).",
+    "C02": ("registry model (class statements evaluated symbolically; its semantics validated by interpreting Rules/Check registration on stub classes), emitter exhaustiveness over resolved emission sites with value sets, CFG reachability under constant history tests, contradiction rule on the last-element protocol of state lists",
+            "partial: every enforced (emitter, code) pair of the frozen table has a live, reachable emission site in a check the registry will run in every statement kind of the frozen slot / history tables, and the dispatcher reaches dependants; NOT decided: that the emitting condition fires for every program/site (run-time).",
             "§4.2"),
-    "C03": ("comparison normalisation to 'measure > T' with measure-kind offsets, counter discipline, exhaustive residue evaluation of the tab-stop expression",
-            "partial: each of the five limits is compared with exactly the threshold its measured quantity demands, counters have one unit increment, tab stops are 4 columns; NOT decided: that the measured quantity is the Norm's in every context.",
+    "C03": ("comparison normalisation to 'measure > T' with measure-kind offsets on dominating test atoms, counter discipline, effect / ordering / who-may-call rule for the line-accumulating Scope.outer(), exhaustive evaluation of the tab-stop code for every start column",
+            "partial: each of the five limits is compared with exactly the threshold its measured quantity demands, counters have one unit increment at the right place, lines are accumulated once and after the closing line is counted, tab stops are 4 columns; NOT decided: that the measured quantity is the Norm's in every context.",
             "§4.3"),
-    "C04": ("def-use and possibly-unbound analysis on main's CFG, must-pass-through on the fatal handler, verdict-source taint in formatters",
-            "exit status / verdict agreement in main and the formatters: single verdict predicate that ignores exactly Notices, exit expression quantifies over all files through that predicate, fatal handler names the file and exits non-zero on all paths, empty selection reaches the exit.",
+    "C04": ("interpretation of __main__.main and of the Errors / formatter classes by the analyser's own evaluator over a stub world (virtual file tree, argparse / sys.exit / print stubs, stub Lexer and Registry), exhaustive over all sequences of <= 3 files of 4 classes (+ pairs of 6) and all add sequences <= 3",
+            "exit status / verdict agreement in main and the formatters: one verdict per file in order from errors.status, Notices ignored, exit status non-zero iff some file has an Error (or a fatal file), independent of order and count, fatal files named and never OK, empty selection handled. Decided on the analyser's interpreter over a finite scenario set, not by running norminette.",
             "§4.4"),
-    "C05": ("CFG all-paths return shape, exception-escape over the call graph with handler scopes, SCC recursion table, Tri-valued loop evaluation in the past-the-end state, progress must-pass-through, helper/dict-key totality",
-            "partial: seven termination / no-internal-error disciplines (each a necessary condition with a concrete crashing or hanging input when broken); NOT decided: None-token dereferences and empty-list indexing (needs a type checker).",
+    "C05": ("CFG all-paths return shape, exception-escape over the call graph with handler scopes and head-verified pops, SCC recursion table with validated bounded cycles, Tri-valued loop evaluation in the past-the-end state, progress must-pass-through with boolean-flag constant propagation, helper / table-key totality (guards, else interpretation), token-text nullability, local-list indexing, exponential ambiguity of every regular expression (squared automaton)",
+            "partial: eleven termination / no-internal-error disciplines (each a necessary condition with a concrete crashing or hanging input when broken); NOT decided: None-token dereferences in general (needs a type checker).",
             "§4.5"),
-    "C06": ("global-mutation and alias analysis over module/class-level mutables, class-state discipline, acquire/restore pairing on the CFG incl. exceptional exits, registry order determinism",
+    "C06": ("global-mutation and alias analysis over module / class-level mutables and default arguments, one-shot iterators, class-state discipline, freshness by reaching definitions, acquire/restore pairing on the CFG incl. exceptional exits, registry order determinism (registration interpreted under permuted class orders)",
             "state isolation and order independence: no shared mutable is mutated, per-file objects are fresh, primaries' priorities are distinct and lists are sorted, process-global settings are restored on all exits, no ambient inputs in the analysis path.",
             "§4.6"),
-    "C07": ("who-may-call / who-may-write ownership over resolved references, typestate of unrecognised tokens on Registry.run's CFG (must-raise)",
-            "partial: only the registry consumes tokens (by front slicing, >= 1 per iteration) and unrecognised tokens lead to CParsingError on every path in normal mode, uncaught below main; NOT decided: line-boundary alignment and depth restoration (run-time).",
+    "C07": ("who-may-call / who-may-write ownership over resolved references, Registry.run interpreted on all stub files of <= 4 lines (typestate abstract interpretation as fall-back), handler coverage of registry.run, no list shrunk while iterated in place",
+            "partial: only the registry consumes tokens (by front slicing, >= 1 per iteration), unrecognised tokens lead to CParsingError on every path in normal mode and are caught by main's per-file handler, no loop skips elements by mutating what it iterates; NOT decided: which token sequences a primary accepts (acceptance semantics).",
             "§4.7"),
-    "C08": ("value sets of emitted codes vs the folded catalogue, Error typestate (created -> positioned -> added), comparator evaluation over order types, sibling agreement of the formatters, print discipline",
-            "catalogue membership and text, levels, every diagnostic positioned, Highlight/Error comparators equal the ascending lexicographic key order (exhaustive over order types), both formatters read the same sources in the same order, nothing but main prints in normal mode.",
+    "C08": ("value sets of emitted codes vs the folded catalogue (dead sites validated by CFG path facts), Error typestate (created -> positioned -> added), comparators and the sorted view interpreted over order types, both reports produced on stub files and compared, print discipline",
+            "catalogue membership and text, levels, every diagnostic positioned, Highlight/Error comparators equal the ascending lexicographic key order, both formatters describe the same files, verdicts and diagnostics in the same order, nothing but main prints in normal mode.",
             "§4.8"),
-    "C09": ("ownership of position state, capture-before-consume def-use in each sub-parser, line-break pairing by reaching definitions, residue evaluation of tab stops",
-            "partial: who writes position state, when it is sampled, and the bookkeeping at line breaks and tabs; NOT decided: the full arithmetic of pop for every layout.",
+    "C09": ("ownership of position state, capture-before-consume def-use in each sub-parser, staleness of position samples, pop / get_next_token interpreted at line breaks and splices against an independent raw-text position model, tab stops",
+            "partial: who writes position state, when it is sampled, and the bookkeeping at line breaks, splices and tabs; NOT decided: the full arithmetic of pop for every layout.",
             "§4.9"),
-    "C10": ("dataflow from every pop() to the returned Token value / table key, injectivity and totality of the folded lexer tables, parser-list completeness",
-            "partial: nothing popped is dropped, raw advances are accounted by BAD_LEXEME or splice skipping, keyword/operator/bracket tables are injective and total for the keys the parsers can produce; NOT decided: exact round trip for every string.",
+    "C10": ("dataflow from every pop() to the returned Token value / table key (else the sub-parser interpreted on every one-character input), raw advances accounted, pop-count discipline (origin of every non-constant times=), injectivity and totality of the folded lexer tables, get_next_token interpreted with logging stub parsers",
+            "partial: nothing popped is dropped, raw advances are accounted by BAD_LEXEME or splice skipping, bulk pops count translated characters, tables are injective and total for the keys the parsers can produce, every sub-parser is tried before a bad lexeme; NOT decided: exact round trip for every string.",
             "§4.10"),
-    "C11": ("constant folding of suffix/prefix/escape/digit tables vs reference sets of C11 6.4.4, emitter exhaustiveness scoped to sub-parsers, regex-AST hygiene",
-            "partial: the tables contain what C and the listed extensions require, every malformed family has its emitter in the right sub-parser, one token per literal, parser order; NOT decided: group assignment of the numeric regexes under re's priority semantics (the 0xb3ba class).",
+    "C11": ("constant folding of suffix / prefix / digit tables (through imports) vs reference sets of C11 6.4.4, escapes and digit buckets by interpreting pop / parse_integer_literal on one representative per letter and (prefix, digit) pair, emitter exhaustiveness scoped to sub-parsers, regex-AST hygiene and alphabet, language intersection for digit-less exponents, digit capacity of the escape branches",
+            "partial: the tables contain what C and the listed extensions require, every malformed family has its emitter in the right sub-parser, numeric patterns cannot swallow a neighbouring character, one token per literal, parser order; NOT decided: group assignment of the numeric regexes under re's priority semantics (the 0xb3ba class).",
             "§4.11"),
-    "C12": ("who-reads-raw-characters analysis of the punctuator parsers, sibling agreement of the splice spellings, longest-first ordering on the CFG, table equality with C11 5.2.1.1/6.4.6",
-            "partial: translation precedes every punctuator decision, both splice spellings are handled wherever one is, longest operators are tried first, tables are the standard ones, rules never read source text; NOT decided: equality of whole token sequences under arbitrary respelling.",
+    "C12": ("who-reads-raw-characters analysis (flow-sensitive 'translated' judgement by reaching definitions), translation order on the CFG, peek / pop / parse_operator / parse_brackets interpreted on every key, every respelling and every short left context, sibling agreement of the splice spellings (tests and patterns), maximal munch over the operator table, cache coherence of cursor-derived Lexer state",
+            "partial: translation precedes every punctuator decision and does not depend on the left context, both splice spellings are handled wherever one is, longest operators win, tables are the standard ones, no stale cursor-derived state; NOT decided: equality of whole token sequences under arbitrary respelling.",
             "§4.12"),
-    "C13": ("regular-language inclusion / emptiness: re._parser AST of the header pattern -> NFA, product with the template family and with each structurally mutated family; typestate of the two header flags",
+    "C13": ("regular-language inclusion / emptiness: re._parser AST of the header pattern -> NFA, product with the template family and with each structurally mutated family; the two-flag machine interpreted over all sequences <= 5 of abstract statements",
             "the for-all over header field values is decided on the regex itself: every member of the stdheader template family is accepted and every listed structural mutation is rejected (emptiness of the intersection), and the two-flag machine emits INVALID_HEADER at most once and at least once when no valid header leads the file.",
             "§4.13"),
-    "C14": ("def-use derivation chain of the expected guard symbol, dominance of the '.h' test over every HEADER_PROT_* emission, emitter per guard defect, state ownership",
-            "partial: the expected symbol derives from File.basename through upper() and replace('.', '_') only, .c files cannot reach any guard diagnostic, each listed guard defect has a handler; NOT decided: that the handlers fire for every body.",
+    "C14": ("def-use derivation chain of the expected guard symbol, dominance of the '.h' test over every HEADER_PROT_* emission, emitter per guard defect (dominating atoms; run() interpreted on stub #ifndef / #endif statements as rescue), state ownership, open/close pairing of the preprocessor state the guard check reads",
+            "partial: the expected symbol derives from File.basename through upper() and replace('.', '_') only, .c files cannot reach any guard diagnostic, each listed guard defect has a handler, nesting-scoped state is restored at #endif; NOT decided: that the handlers fire for every body.",
             "§4.14"),
-    "C15": ("sibling agreement of the three suffix filters (tuple literal vs two glob patterns parsed as globs), must-pass-through on the error exits",
-            "partial: the explicit-file suffix test and both glob patterns denote exactly {.c,.h} recursively, missing path exits non-zero, wrong suffix is not appended, --use-gitignore only removes; NOT decided: behaviour over real directory trees.",
+    "C15": ("__main__ interpreted over virtual directory trees and argument lists (glob / pathlib / git check-ignore stubs): analysed files, rejection messages, exit status and verdict names compared with what the property prescribes; File(path) interpreted",
+            "partial: exactly the named / discovered .c and .h files are analysed once per mention, wrong suffixes rejected with a message, missing paths exit non-zero, the current-directory default only without arguments, --use-gitignore only removes; decided on the analyser's interpreter over the listed virtual trees, NOT over real directory trees.",
             "§4.15"),
-    "C16": ("taint / effect analysis: option values as sources, allowed sinks by role, single pipeline",
-            "debug reaches printing and fatality only, -R reaches only skip_define and only the #define-value diagnostics, presentation options reach only the formatter, formatters are views, inline and file content share one pipeline.",
+    "C16": ("differential interpretation of __main__ in the stub world: each declared option toggled on the plain command line and next to -R CheckDefine -d must leave the pipeline record unchanged apart from its one allowed effect; formatters rendered twice (views); Context.__init__ interpreted; CFG regions that run only for some debug levels",
+            "debug reaches printing and fatality only, -R reaches only skip_define and only the #define-value diagnostics, presentation options reach only the formatter, formatters are views, inline and file content share one pipeline and one text.",
             "§4.16"),
-    "C17": ("token-value taint with kind guards and role classification of every read of token text in rules/ and context.py",
-            "every read of a token's text whose kind may be COMMENT/MULT_COMMENT/STRING/CHAR_CONST has role WIDTH or MESSAGE (plus the two exceptions the property itself makes: 42 header, #include argument).",
+    "C17": ("token-value taint with CFG-valid kind guards, a re-validated precondition table (navigation agreement between primaries and checks) and role classification of every read of token text in rules/ and context.py",
+            "every read of a token's text whose kind may be COMMENT/MULT_COMMENT/STRING/CHAR_CONST has role WIDTH, MESSAGE, TRUTH or an inert comparison (plus the two exceptions the property itself makes: 42 header, #include argument); literal / comment sub-parsers build only tokens of their own kind.",
             "§4.17"),
-    "C18": ("token-value taint (identifier kinds) with a closed list of naming-class predicates and special names; keyword table subset of C keywords",
-            "identifier text reaches only naming-class predicates, width, the closed special-name list, the three name stores and messages; the keyword table swallows only C reserved words.",
+    "C18": ("token-value taint (identifier kinds) with a closed list of naming-class predicates, dispatch on constant tables, comparisons between recorded identifiers; keyword table subset of C keywords (exact membership by lexer simulation)",
+            "identifier text reaches only naming-class predicates, width, the closed special-name list, dispatch on constant keys, comparisons between identifiers, the name stores and messages; the keyword table swallows only C reserved words.",
             "§4.18"),
-    "C19": ("taint on the line coordinate (translation invariance), ownership of header state, dominance of the comment/empty early return over scope stores",
-            "partial: line numbers are opaque to rules, header state is isolated in CheckHeader, comments and empty lines do not move the scope or the global alignment memory; NOT decided: history look-backs across an insertion.",
+    "C19": ("taint on the line coordinate (translation invariance: difference / same-line / message uses only), ownership of header state, dominance of the comment / empty early return over scope stores, contradiction rule on history look-back loops, counters",
+            "partial: line numbers are opaque to rules, header state is isolated in CheckHeader, comments and empty lines do not move the scope or the global alignment memory, successive look-back loops agree about comments; NOT decided: every history look-back across an insertion.",
             "§4.19"),
 }
 
@@ -88,9 +88,13 @@ def main():
                 "replay_cmd_template": f"{PY} -m sa explain {{path}}",
                 "engine": "sa",
                 "level_claimed": {"category": "other", "text": txt, "design_ref": f"DESIGN.md {ref}"},
-                "level_note": "trusted: CPython ast/re._parser, the analyser itself (validated both ways by the mutant/twin battery of the thorough tier), "
+                "level_note": "trusted: CPython ast/re._parser, the analyser itself (validated both ways by the mutant/twin battery of the thorough tier: "
+                              "seeded defects must be reported, 130+ behaviour-preserving refactorings by independent authors must stay silent), "
                               "the reference sets and frozen tables written into the checker; name-based resolution asserted exact by selfcheck. "
-                              "Decides the structural clauses named above, not the run-time behaviour.",
+                              "Decides the structural clauses named above, not the run-time behaviour. Where the technique says 'interpreted', the "
+                              "analyser's own evaluator walks the function's AST over a completely enumerated finite stub domain (DESIGN.md 3.4b); "
+                              "norminette is never imported or run. Rule functions that meet a construct outside the evaluators' subset are reported "
+                              "UNDECIDED (evidence: coverage.undecided) and the rest of the check is still decided.",
                 "technique": "static analysis: " + tech,
             })
         elif pid in NA_REASONS:
@@ -111,8 +115,9 @@ def main():
             "name": "sa",
             "path": "/verif/sa",
             "serves_properties": [c["property_id"] for c in checks],
-            "kind_free_text": "repository-specific static analyser (stdlib ast / re._parser; program model, constant folder, "
-                              "resolver + call graph, statement CFG, Tri-valued loop evaluator, taint/role classifier, regex->NFA language engine)",
+            "kind_free_text": "repository-specific static analyser (stdlib ast / re._parser; inlining pre-pass, program model, constant folder, "
+                              "resolver + call graph, statement CFG with dominance / reaching definitions, Tri-valued loop evaluator, taint/role classifier, "
+                              "regex->NFA language engine (inclusion, emptiness, ambiguity), and the analyser's own AST evaluators over finite stub domains)",
         }],
         "checks": checks,
         "not_applicable": na,
